@@ -552,6 +552,7 @@ class Evaluator:
                 res.append(Exit('raise', it, s1, s))
                 continue
             modified = self._modified(s.body) | {n.id for n in ast.walk(s.target) if isinstance(n, ast.Name)}
+            entry_env = dict(s1.env)
             head = self._havoc(s1, modified, s.body, tag)
             var = self._loopvar(s.target, it, tag)
             head = self._assign(s.target, var, head, mod, fi, depth, ln)
@@ -570,7 +571,7 @@ class Evaluator:
             # state after the loop: zero or more iterations -> modified variables are arbitrary.
             # Variables not modified keep their values; path conditions of the body are dropped.
             post = self._havoc(s1, modified, s.body, tag + 'post')
-            post.loops.append(LoopSummary(s, 'for', var, it, body_states, head.env))
+            post.loops.append(LoopSummary(s, 'for', var, it, body_states, head.env, entry_env))
             post.trace.append('%d:for done' % ln)
             if s.orelse:
                 res.extend(self._block(s.orelse, post, fi, depth))
@@ -578,7 +579,7 @@ class Evaluator:
                 res.append(Exit('fall', None, post))
             for a in after:
                 a2 = self._havoc(a, set(), s.body, tag)
-                a2.loops.append(LoopSummary(s, 'for', var, it, body_states, head.env))
+                a2.loops.append(LoopSummary(s, 'for', var, it, body_states, head.env, entry_env))
                 res.append(Exit('fall', None, a2))
         return res
 
